@@ -446,6 +446,15 @@ def prove(hyps, goal, timeout_ms=10000, seed=0, use_cvc5=True, both=False, quick
         out['model'] = s.model()
         out['exact'] = True
         return out
+    if z3.is_false(goal):
+        # "this point is never reached" and the path got here under the executor's own feasibility test (the quantifier-free
+        # part of the path condition): if that part is satisfiable the path is as real as every other explored one
+        rq = refute_qf(hyps, goal, timeout_ms=min(timeout_ms, 8000), seed=seed)
+        if rq['status'] == 'refuted':
+            rq['exact'] = False
+            rq['note'] = 'the quantifier-free part of the path condition is satisfiable (the executor\'s feasibility criterion)'
+            rq['time_s'] = round(time.time() - t0, 4)
+            return rq
     if quick_only:
         out['status'] = 'undecided'
         out['reason'] = 'budget exhausted: the function already has failing obligations'
